@@ -125,15 +125,45 @@ Lemma values_typed_input_spec S F D :
   values_typed_input S F D = true -> forall vt, In vt (typed_values S F D) -> input_sty S (snd vt).
 Proof. unfold values_typed_input. rewrite forallb_forall. intros H vt Hvt. apply input_styb_spec, H, Hvt. Qed.
 
+(** ** what the theorems about accepted documents need of the pipeline: every rule group other than
+    the overlapping-fields pass is silent, and the first visitor of validateFields emitted nothing.
+    Both the pipeline with the checked-pairs memo and the one without it provide this. *)
+Definition rules_silent (pi : order) (S : schema) (F : features) (A : document) : Prop :=
+  rule_operations repaired A = Done [] /\
+  r_errs (inspect (fields_enter S F) pop (tree_doc A) rst0) = [] /\
+  rule_arguments repaired pi S A = Done [] /\
+  rule_fragment_declarations pi S F A = [] /\ rule_fragment_spreads repaired pi S F A = Done [] /\
+  rule_values repaired pi S A = Done [] /\ rule_directives repaired S A = Done [] /\ rule_variables pi S A = Done [].
+
+Lemma merge_enter_dirty q pi S D st n : ~ clean st -> ~ clean (fst (merge_enter q pi S D st n)).
+Proof.
+  intros H. unfold merge_enter. destruct n; try exact H.
+  destruct (add_selections q D [] (Some s)) as [m v | e |]; [| apply add_errs_dirty; exact H | apply set_abort_dirty; exact H].
+  destruct (can_merge q pi S D (max_depth D) m); cbn [fst]; [exact H | apply add_errs_dirty; exact H | apply set_abort_dirty; exact H | apply set_abort_dirty; exact H].
+Qed.
+
+Lemma plain_rules_silent pi S F A : all_rules repaired pi S F A = Done [] -> rules_silent pi S F A.
+Proof.
+  intros H. apply all_rules_nil in H as [Ho [Hf [Ha [[Hd Hs] [Hv [Hdir Hvar]]]]]].
+  unfold rules_silent. repeat split; try assumption.
+  unfold rule_fields in Hf. apply finish_clean in Hf.
+  destruct (classic_clean (inspect (fields_enter S F) pop (tree_doc A) rst0)) as [[H _] | Hd']; [exact H |].
+  exfalso. apply (inspect_dirty (fun st => ~ clean st) (merge_enter repaired pi S A) (fun s => s) (tree_doc A)
+                                (merge_enter_dirty repaired pi S A) (fun st H => H) _ Hd'). exact Hf.
+Qed.
+
+Lemma accepted_silent pi S F D : validate_model repaired pi S F D = Done [] -> rules_silent pi S F (pti_doc (q_unwrap_obj repaired) S F D).
+Proof. intros H. apply validate_model_nil in H. apply plain_rules_silent. exact H. Qed.
+
 (** ** what acceptance guarantees, section by section (the part of "accepted -> Valid" proved so far) *)
-Theorem accepted_rules_hold pi S F D :
-  order_ok pi -> validate_model repaired pi S F D = Done [] ->
+Theorem silent_rules_hold pi S F D :
+  order_ok pi -> rules_silent pi S F (pti_doc (q_unwrap_obj repaired) S F D) ->
   valid_5_7 S D = true /\
   valid_5_5_1 S F D = true /\
   (schema_ok S = true -> fields_defined S F D = true -> valid_5_4 S F D = true) /\
   (schema_ok S = true -> values_typed_input S F D = true -> valid_5_6 S F D = true).
 Proof.
-  intros Hpi H. apply validate_model_nil, all_rules_nil in H as [_ [_ [Ha [[Hd _] [Hv [Hdir _]]]]]].
+  intros Hpi H. destruct H as [_ [_ [Ha [Hd [_ [Hv [Hdir _]]]]]]].
   assert (valid_5_7 S D = true) as H57 by (apply (rule_directives_iff S F D); exact Hdir).
   split; [exact H57 |]. split; [apply (rule_fragment_declarations_iff pi Hpi S F D); exact Hd |]. split.
   - intros Hs Hf. unfold schema_ok in Hs. apply andb_true_iff in Hs as [Hs Hs3]. apply andb_true_iff in Hs as [Hs1 Hs2].
@@ -146,6 +176,13 @@ Proof.
                               (values_typed_input_spec S F D Hf)) as [errs [E Hiff]].
     rewrite E in Hv. inversion Hv; subst errs. apply Hiff. reflexivity.
 Qed.
+Theorem accepted_rules_hold pi S F D :
+  order_ok pi -> validate_model repaired pi S F D = Done [] ->
+  valid_5_7 S D = true /\
+  valid_5_5_1 S F D = true /\
+  (schema_ok S = true -> fields_defined S F D = true -> valid_5_4 S F D = true) /\
+  (schema_ok S = true -> values_typed_input S F D = true -> valid_5_6 S F D = true).
+Proof. intros Hpi H. apply (silent_rules_hold pi S F D Hpi (accepted_silent pi S F D H)). Qed.
 
 (** the other direction for the same sections: a violation of one of them makes the pipeline emit
     a primary error of the corresponding rule group, so the document is rejected *)
@@ -163,13 +200,17 @@ Proof.
 Qed.
 
 (** the operation rules (5.2.1.1, 5.2.2.1, root types) also hold of an accepted document *)
+Theorem silent_operations_hold pi S F D :
+  rules_silent pi S F (pti_doc (q_unwrap_obj repaired) S F D) ->
+  valid_5_2_1_1 D = true /\ valid_5_2_2_1 D = true /\ valid_root S D = true.
+Proof.
+  intros H. destruct H as [Ho _].
+  apply (rule_operations_iff S F D) in Ho as [H1 [H2 [H3 _]]]. auto.
+Qed.
 Theorem accepted_operations_hold pi S F D :
   validate_model repaired pi S F D = Done [] ->
   valid_5_2_1_1 D = true /\ valid_5_2_2_1 D = true /\ valid_root S D = true.
-Proof.
-  intros H. apply validate_model_nil, all_rules_nil in H as [Ho _].
-  apply (rule_operations_iff S F D) in Ho as [H1 [H2 [H3 _]]]. auto.
-Qed.
+Proof. intros H. apply (silent_operations_hold pi S F D (accepted_silent pi S F D H)). Qed.
 
 (** with totality: under every order the outcome is a list of errors, empty under one order iff
     empty under the other — the verdict (accept / reject) is a function of schema, features, document *)
@@ -189,12 +230,6 @@ Qed.
 
 (** ** accepted documents: every selection set has a composite parent type, every field is defined,
     5.3.1 and 5.3.3 hold — so the side condition [fields_defined] of the 5.4 clause is discharged *)
-Lemma merge_enter_dirty q pi S D st n : ~ clean st -> ~ clean (fst (merge_enter q pi S D st n)).
-Proof.
-  intros H. unfold merge_enter. destruct n; try exact H.
-  destruct (add_selections q D [] (Some s)) as [m v | e |]; [| apply add_errs_dirty; exact H | apply set_abort_dirty; exact H].
-  destruct (can_merge q pi S D (max_depth D) m); cbn [fst]; [exact H | apply add_errs_dirty; exact H | apply set_abort_dirty; exact H | apply set_abort_dirty; exact H].
-Qed.
 
 Lemma roots_composite S ot tn : schema_roots_ok S = true -> root_type S ot = Some tn -> composite_name S tn = true.
 Proof.
@@ -205,24 +240,19 @@ Proof.
   destruct (name_eqb k s_subscription_kw); [rewrite Hr in H3; exact H3 | discriminate].
 Qed.
 
-Theorem accepted_fields_hold pi S F D :
-  order_ok pi -> schema_ok S = true -> validate_model repaired pi S F D = Done [] ->
+Theorem silent_fields_hold pi S F D :
+  order_ok pi -> schema_ok S = true -> rules_silent pi S F (pti_doc (q_unwrap_obj repaired) S F D) ->
   fields_defined S F D = true /\ valid_5_3_1 S F D = true /\ valid_5_3_3 S F D = true.
 Proof.
   intros Hpi Hs Hacc. set (qo := q_unwrap_obj repaired).
-  destruct (accepted_rules_hold pi S F D Hpi Hacc) as [_ [H551 _]].
-  destruct (accepted_operations_hold pi S F D Hacc) as [_ [_ Hroot]].
+  destruct (silent_rules_hold pi S F D Hpi Hacc) as [_ [H551 _]].
+  destruct (silent_operations_hold pi S F D Hacc) as [_ [_ Hroot]].
   unfold schema_ok in Hs. apply andb_true_iff in Hs as [Hs Hs3]. apply andb_true_iff in Hs as [Hs1 Hs2].
   pose proof (schema_no_typename_spec S F Hs1) as Hnt.
   assert (composite_name S n_String = false) as Hstr.
   { unfold schema_roots_ok in Hs3. rewrite !andb_true_iff in Hs3. destruct Hs3 as [_ H]. apply negb_true_iff in H. exact H. }
   (* the first visitor is silent *)
-  apply validate_model_nil, all_rules_nil in Hacc as [_ [Hf _]].
-  unfold rule_fields in Hf. apply finish_clean in Hf.
-  assert (r_errs (inspect (fields_enter S F) pop (tree_doc (pti_doc qo S F D)) rst0) = []) as Hpass.
-  { destruct (classic_clean (inspect (fields_enter S F) pop (tree_doc (pti_doc qo S F D)) rst0)) as [[H _] | Hd]; [exact H |].
-    exfalso. apply (inspect_dirty (fun st => ~ clean st) (merge_enter repaired pi S (pti_doc qo S F D)) (fun s => s) (tree_doc (pti_doc qo S F D))
-                                  (merge_enter_dirty repaired pi S (pti_doc qo S F D)) (fun st H => H) _ Hd). exact Hf. }
+  assert (r_errs (inspect (fields_enter S F) pop (tree_doc (pti_doc qo S F D)) rst0) = []) as Hpass by (destruct Hacc as [_ [H _]]; exact H).
   rewrite fields_pass_errors in Hpass.
   assert (forall d o, In d D -> In o (ssels_ss S F (model_def_scope S F d) (def_sub d)) -> fe_ev1 S F (fst o) (pti_sel qo S F (fst o) (snd o)) = []) as Hsilent.
   { intros d o Hd Ho. rewrite flat_map_nil_iff in Hpass. specialize (Hpass d Hd). rewrite flat_map_nil_iff in Hpass. apply Hpass. exact Ho. }
@@ -271,9 +301,18 @@ Proof.
 Qed.
 
 (** with it, the argument rules hold of every accepted document over a well-formed schema *)
+Theorem silent_arguments_hold pi S F D :
+  order_ok pi -> schema_ok S = true -> rules_silent pi S F (pti_doc (q_unwrap_obj repaired) S F D) -> valid_5_4 S F D = true.
+Proof.
+  intros Hpi Hs Hacc. destruct (silent_fields_hold pi S F D Hpi Hs Hacc) as [Hf _].
+  destruct (silent_rules_hold pi S F D Hpi Hacc) as [_ [_ [H _]]]. apply H; assumption.
+Qed.
+
+(** the memo-free pipeline *)
+Theorem accepted_fields_hold pi S F D :
+  order_ok pi -> schema_ok S = true -> validate_model repaired pi S F D = Done [] ->
+  fields_defined S F D = true /\ valid_5_3_1 S F D = true /\ valid_5_3_3 S F D = true.
+Proof. intros Hpi Hs H. apply (silent_fields_hold pi S F D Hpi Hs (accepted_silent pi S F D H)). Qed.
 Theorem accepted_arguments_hold pi S F D :
   order_ok pi -> schema_ok S = true -> validate_model repaired pi S F D = Done [] -> valid_5_4 S F D = true.
-Proof.
-  intros Hpi Hs Hacc. destruct (accepted_fields_hold pi S F D Hpi Hs Hacc) as [Hf _].
-  destruct (accepted_rules_hold pi S F D Hpi Hacc) as [_ [_ [H _]]]. apply H; assumption.
-Qed.
+Proof. intros Hpi Hs H. apply (silent_arguments_hold pi S F D Hpi Hs (accepted_silent pi S F D H)). Qed.
